@@ -326,6 +326,7 @@ def obligations(tier):
     for args in ("Sigma", "Sigma+Lambda", "full"):
         obs.append(ctor_ob("GaussianPDF", args))
     obs.append(ctor_ob("GaussianDiagPDF", "Sigma"))
+    obs.append(ctor_ob("GaussianDiagPDF", "Sigma+Lambda"))      # the slogdet branch of the diagonal constructor (mutation sweep)
     obs.extend(site_obs(prog))
     # the condition_on_x construction site outside the known finding F10 (square A)
     from .c17 import coherence_square_ob, CLASSES as HETERO
@@ -343,7 +344,7 @@ def obligations(tier):
     return obs
 
 
-FLOORS = {"group:mass": 24, "group:linalg": 4, "group:normalize": 3, "group:ctor": 4, "group:site": 8, "group:after": 230, "group:coherent-square": 4}
+FLOORS = {"group:mass": 24, "group:linalg": 4, "group:normalize": 3, "group:ctor": 5, "group:site": 8, "group:after": 230, "group:coherent-square": 4}
 LEVEL = "proof"
 EXPLANATION = ("Closed-form mass (compute_lnZ / log_integral* / integral* / integrate('1')), utils/linalg.py against its summary, normalisation, "
                "every density constructor argument combination, and a who-may-construct scan: every library site constructing a GaussianPDF "
